@@ -69,6 +69,23 @@ def x_sketch(report):
     if tests != expected:
         raise Unrecognised("_parse_params_str", f"item tests changed: {tests}")
 
+    # does __init__ end with the size check of patches/C14.1-sketch-refuse-zero-size.diff ?
+    cls_f = next((n for n in tree.body if isinstance(n, ast.ClassDef) and n.name == "_signatures_for_sketch_factory"), None)
+    init_f = next((n for n in cls_f.body if isinstance(n, ast.FunctionDef) and n.name == "__init__"), None) if cls_f else None
+    if init_f is None:
+        raise Unrecognised("_signatures_for_sketch_factory.__init__", "not found")
+    last = init_f.body[-1]
+    want_loop = ("for moltype, params in self.params_list:\n    d = self.defaults[moltype]\n    if not params.get('num', d.get('num', 0)) "
+                 "and (not params.get('scaled', d.get('scaled', 0))):\n        raise ValueError('must set either num or scaled to a non-zero value')")
+    if isinstance(last, ast.For) and "non-zero value" in ast.unparse(last):
+        if ast.unparse(last) != want_loop:
+            raise Unrecognised("_signatures_for_sketch_factory.__init__", "size check present but not in the modelled shape: " + ast.unparse(last)[:200])
+        refuses_zero = True
+    elif "non-zero value" in ast.unparse(init_f):
+        raise Unrecognised("_signatures_for_sketch_factory.__init__", "size check present but not as the last statement")
+    else:
+        refuses_zero = False
+
     # Rust side
     rs = strip_rust_comments(read("src/core/src/cmd.rs"))
     bt = rust_fn_body(rs, "build_template")
@@ -135,7 +152,7 @@ def x_sketch(report):
         raise Unrecognised("ComputeParameters.__init__", f"keyword set changed: {sorted(pyd)}")
 
     report["inputs"]["sketch"] = {"DEFAULTS": defaults, "DEFAULT_MMHASH_SEED": seed, "k_mult": mult,
-                                  "parse_tests": tests, "build_template_order": order,
+                                  "parse_tests": tests, "refuses_zero_size": refuses_zero, "build_template_order": order,
                                   "rust_defaults": got, "py_defaults": {k: repr(v) for k, v in pyd.items()}}
     b = lambda x: "true" if x in (True, "true") else "false"
     out = [""]
@@ -143,6 +160,8 @@ def x_sketch(report):
     out.append("def sketchDefaults : List (String × String) := [" +
                ", ".join(f"({lean_str(k)}, {lean_str(v)})" for k, v in defaults) + "]")
     out.append(f"def sketchDefaultSeed : Nat := {seed}")
+    out.append("/-- `_signatures_for_sketch_factory.__init__` ends with the check that refuses a parameter set with neither num nor scaled (patches/C14.1) -/")
+    out.append(f"def sketchRefusesZero : Bool := {'true' if refuses_zero else 'false'}")
     out.append("/-- non-DNA k sizes are multiplied by this in `get_compute_params` -/")
     out.append(f"def sketchKMult : Nat := {mult}")
     out.append("/-- order in which `build_template` (cmd.rs) pushes one sketch per molecule type for each k -/")
